@@ -90,8 +90,8 @@ pub fn run_history(hist: &Value, out: &mut dyn Write) {
     let spy = Spy::new(200, 100);
     let mut pb: Option<ProgressBar> = None;
     let mut ts: Vec<String> = vec!["x".into(), "y".into()];
-    // decided by the content of the history (not by its number, which a replay file changes)
-    let lead_hist = hist["ops"].to_string().bytes().fold(0u32, |a, b| a.wrapping_mul(31).wrapping_add(b as u32)) % 2 == 1;
+    // decided by the first operation of the history (not by its number or its length, which a replay file changes)
+    let lead_hist = hist["ops"][0].to_string().bytes().fold(0u32, |a, b| a.wrapping_mul(31).wrapping_add(b as u32)) % 2 == 1;
     for (i, op) in hist["ops"].as_array().cloned().unwrap_or_default().iter().enumerate() {
         let mut rec = op.as_object().cloned().unwrap_or_default();
         let name = op["op"].as_str().unwrap_or("");
